@@ -515,9 +515,11 @@ class TracerMixin:
         # Extract results as a column vector
         results = np.array([[self[x][t]] for x in names])
 
-        # If starting from an empty `Trace` or `reset`ting the `Trace`,
-        # re-initialise the variable
-        if self[self.TRACE_NAME][t].is_empty() or reset:
+        # If starting from an empty `Trace`, `reset`ting the `Trace` or
+        # recording other variables than the existing `Trace` holds (one array
+        # cannot hold both sets), re-initialise the variable
+        current = self[self.TRACE_NAME][t]
+        if current.is_empty() or reset or list(current.names) != names:
             self[self.TRACE_NAME][t] = Trace(names)
 
         # Add the results to the `Trace`
